@@ -10,6 +10,7 @@ mod sched;
 mod stats;
 mod tables;
 mod variants;
+mod watch;
 
 fn main() {
     let args: Vec<String> = std::env::args().collect();
@@ -40,6 +41,9 @@ fn main() {
         .stack_size(16 << 20)
         .build_global()
         .unwrap();
+    if args[1] == "--raw-call" {
+        std::process::exit(props::c03::raw_child(&args[2]));
+    }
     if args[1] == "--c18-scenario" {
         std::process::exit(props::c18::child(&args[2], args[3].parse().unwrap(), &args[4], &args[5]));
     }
@@ -79,6 +83,7 @@ fn main() {
         eprintln!("tier must be quick or thorough");
         std::process::exit(2);
     }
+    watch::start(prop);
     let code = match prop {
         "C01" | "C02" | "C04" | "C05" => props::base::run(prop, tier),
         "C03" => props::c03::run(tier),
